@@ -32,8 +32,15 @@ OPS = {
 }
 
 
+CACHE_USERS = {'C01', 'C02', 'C05', 'C06', 'C07', 'C08', 'C15', 'C16'}
+
+
 def owners(o):
     """properties that own an obligation (INV conjuncts and loop invariants are shared)"""
+    if o.func.startswith('_archives:cache'):
+        # the wrapper proofs call cache.load/dump/archived through the contract that the real methods
+        # are proved to refine: that obligation belongs to every property proved over the contract
+        return CACHE_USERS if o.name.endswith('/refines_contract') else {'C08'}
     if o.prop == 'C07':
         # C02's at-most-once claim (across evictions and purges) is a lemma over C07's clauses
         return {'C07', 'C02'}
@@ -53,7 +60,62 @@ def owners(o):
     return set(POLICY)
 
 
+def _work_cache(prop, tier):
+    """klepto._archives.cache: the real methods against contracts/kcache.py and the sentences of C08"""
+    t0 = time.time()
+    out = {'case': '_archives:cache', 'recs': [], 'unsupported': None, 'error': None, 'paths': {}, 'sha': None,
+           'queries': 0, 'module_unsupported': []}
+    try:
+        from contracts import cache_class as CC
+        from contracts import cache_replay as CR
+        from pyvc import driver
+        from pyvc.symex import Unsupported
+        case = CC.CacheCase()
+        out['sha'] = case.sha
+        obs = None
+        if case.unsupported:
+            out['unsupported'] = case.unsupported
+        else:
+            try:
+                obs = CC.obligations(case)
+            except Unsupported as e:
+                out['unsupported'] = str(e)
+        witness = None
+        if obs is None or tier == 'thorough':
+            n, states, v = CR.search()
+            out['bounded'] = {'states': states, 'transitions': n, 'evaluations': n, 'exhausted': v is None, 'samples': [],
+                              'violations': [], 'wall_s': round(time.time() - t0, 2),
+                              'scope': 'real klepto._archives.cache; all states over 2 keys x 3 values (None included), '
+                                       'dict archive or null archive in each slot; 20 operations each'}
+            witness = v
+            if v is not None:
+                out['bounded']['violations'].append({'property': 'C08', 'clause': v['violated'], 'history': [{'op': v['op']}],
+                                                    'state': {'cls': 'cache'}, 'config': {}, 'cache_witness': v})
+        if obs is None:
+            return out
+        mine = [o for o in obs if prop in owners(o)]
+        recs, nq = driver.discharge_grouped(mine)
+        out['queries'] = nq
+        for r in recs:
+            ob = r.pop('_ob')
+            if r['res'] not in ('unsat', 'unrefined'):
+                if witness is None:
+                    n, states, witness = CR.search()
+                if witness is not None:
+                    r['replay'] = {'confirmed': True, 'kind': 'cache', 'cache_witness': witness,
+                                   'why': 'failing input of the real klepto._archives.cache found by exhaustive small-scope search'}
+                else:
+                    r['replay'] = {'confirmed': None, 'why': 'no failing input over 2 keys x 3 values'}
+            out['recs'].append(r)
+        out['wall_s'] = round(time.time() - t0, 2)
+    except Exception:
+        out['error'] = traceback.format_exc()
+    return out
+
+
 def _work(args):
+    if args[0] == 'cache-class':
+        return _work_cache(args[4], args[5])
     modfile, modname, safe, clsname, prop, tier = args
     t0 = time.time()
     out = {'case': '%s:%s' % (modfile[:-3], clsname), 'recs': [], 'unsupported': None, 'error': None,
@@ -200,10 +262,12 @@ def run(prop, tier='quick', seed=0):
     for (modfile, modname, safe) in W.MODULES:
         for cls in W.POLICIES:
             jobs.append((modfile, modname, safe, cls, prop, tier))
+    if prop in CACHE_USERS:
+        jobs.append(('cache-class', None, None, 'cache', prop, tier))
     # the LRU cases are the long ones: start them first
     jobs.sort(key=lambda j: 0 if j[3] == 'lru_cache' else 1)
     ctx = multiprocessing.get_context('fork')
-    with ctx.Pool(min(12, len(jobs))) as pool:
+    with ctx.Pool(min(13, len(jobs))) as pool:
         results = pool.map(_work, jobs, chunksize=1)
     return results
 
@@ -312,6 +376,9 @@ def check(prop, tier, seed, level_a_note=''):
                'how_to_replay': './check --replay %s' % path}
         if r.get('replay', {}).get('spec'):
             doc['spec'] = r['replay']['spec']
+        if r.get('replay', {}).get('kind') == 'cache':
+            doc['replay_kind'] = 'cache'
+            doc['cache_witness'] = r['replay']['cache_witness']
         if r.get('replay', {}).get('kind') == 'history':
             doc['replay_kind'] = 'history'
             doc['history'] = r['replay']['history']
@@ -344,6 +411,13 @@ def check(prop, tier, seed, level_a_note=''):
                 rep.broken.append('%s: %s' % (casename, v['clause']))
                 continue
             n = '%s.%s/%s' % (casename, {'call': 'wrapper'}.get(v['history'][-1]['op'], v['history'][-1]['op']), v['clause'])
+            if v.get('cache_witness') is not None:
+                path = common.replay_path(prop, n + '@input')
+                common.write_json(path, {'property': prop, 'obligation': n, 'replay_kind': 'cache',
+                                         'cache_witness': v['cache_witness'], 'how_to_replay': './check --replay %s' % path})
+                if is_fallback or prop == 'C08':
+                    rep.violation(n, path, True)
+                continue
             if n in seenv:
                 continue
             seenv.add(n)
